@@ -43,9 +43,12 @@ def post_statement_join(P, b):
         d = terms.strip(P.operand_term(b, dsw, b.term(dsw)["discr"]))
         if len(terms.strip(d[1])) > 3:
             disp_peek = terms.strip(d[1])[3]
-    J = [bb for bb, t in b.calls() if callee_name(t)[0] == "parser::Parser::at" and kind_of(canon(P.call_arg_terms(b, bb)[1])) == "Eof"]
+    J = [bb for bb, t in b.calls() if callee_name(t)[0] == "parser::Parser::at" and kind_of(canon(P.call_arg_terms(b, bb)[1])) in ("Eof", "Eol")]
     J += [bb for bb, t in b.calls() if callee_name(t)[0] == "parser::Parser::peek" and bb != disp_peek]
-    return J
+    # the test starts at the first of these (the one that dominates the others): `at(Eof)` then `at(Eol)`, or the other way round
+    cfg = P.cfg(b)
+    first = [j for j in J if all(cfg.dominates(j, k) for k in J)]
+    return first if first else J
 
 
 def next_kinds(pi, all_kinds):
